@@ -44,6 +44,8 @@ func (g *fileGen) randString(max int) string {
 			out = append(out, []byte(string(rune(0xE0+g.rng.Intn(30))))...)
 		} else if r == 2 && len(out)+3 <= n {
 			out = append(out, []byte(string(rune(0x20A0+g.rng.Intn(30))))...) // 3 bytes
+		} else if r == 4 && len(out)+3 <= n {
+			out = append(out, []byte("\ufffd")...) // the replacement character is a character like any other
 		} else if r == 3 && len(out)+4 <= n {
 			out = append(out, []byte(string(rune(0x1F600+g.rng.Intn(60))))...) // 4 bytes
 		} else {
@@ -90,10 +92,17 @@ func (g *fileGen) setField(fv reflect.Value, pf *PField) (skipped bool) {
 		return
 	case latType:
 		v := int32(g.rng.Int63n(1<<31-2)) - (1<<30 - 1)
+		if g.rng.Intn(5) == 0 {
+			// the ends of the valid range (exactly -90 degrees, the last value below +90) and their neighbours
+			v = []int32{-1 << 30, 1<<30 - 1, -1<<30 + 1, 1<<30 - 2, 0, -1, 1}[g.rng.Intn(7)]
+		}
 		fv.Set(reflect.ValueOf(fit.NewLatitude(v)))
 		return
 	case lngType:
 		v := int32(g.rng.Uint32())
+		if g.rng.Intn(5) == 0 {
+			v = []int32{-1 << 31, 1<<31 - 2, -1<<31 + 1, 0, -1, 1}[g.rng.Intn(6)]
+		}
 		if v == 0x7FFFFFFF {
 			v = 0
 		}
